@@ -96,6 +96,29 @@ theorem upgrade_spec (a b : Res) (reverse : Bool) :
     · simp only [if_true]
       exact List.perm_append_comm.trans (List.filter_append_perm _ _)
 
+/-- **upgrade_and_extend** is `upgrade` followed by `extend`: the hits `other` matched first, the
+    other old hits next, then the hits of `other` that `self` did not match; the matched set is the
+    union and `len` its size. (With an empty `other` nothing changes.) -/
+theorem upgrade_and_extend_spec (a b : Res) (ha : ResWF a) (hb : ResWF b) :
+    upgradeAndExtend a b = extend (upgrade a b false) b := by
+  unfold upgradeAndExtend upgrade
+  by_cases h : b.total = 0
+  · rw [if_pos h, if_pos h]
+    have hd : b.docs = [] := by
+      have := hb.len; rw [h] at this; exact List.length_eq_zero_iff.mp this.symm
+    have ht : b.topN = [] := by
+      cases hbt : b.topN with
+      | nil => rfl
+      | cons it rest =>
+        have := hb.hits it (by rw [hbt]; simp)
+        rw [hd] at this; simp at this
+    cases a with
+    | mk topN docs total =>
+      have hl : total = docs.length := ha.len
+      simp [extend, union, hd, ht, hl]
+  · rw [if_neg h, if_neg h]
+    rfl
+
 /-- Non-vacuity / concrete behaviour: two overlapping result objects. -/
 example :
     let a : Res := ⟨[(3, 1), (2, 4), (1, 7)], [1, 4, 7, 9], 4⟩
